@@ -14,7 +14,7 @@ ID = "C03"
 WARM = ["daily", "hourly"]
 RULE = (
     "A batch of meters (daily legacy / legacy developer splits / current, billing, hourly with an explicit seed under three profiles, "
-    "CalTRACK hourly on a 120-day baseline) and generated schedules: a permutation of the batch, a split over 1-8 subprocesses, "
+    "CalTRACK hourly on a 120-day baseline) and generated schedules: a permutation of the batch, a split over 1-16 subprocesses, "
     "unrelated warm-up actions before and between fits (another fit, re-seeding and consuming numpy's global RNG, constructing "
     "settings, a validation failure), repeated predictions, every model serialised again at the end of its process, and a per-subprocess environment (PYTHONHASHSEED in {0, 1, random}, "
     "OMP/MKL/OPENBLAS_NUM_THREADS in {unset, 1, 4}). Oracle: the sha-256 of to_json() and of the raw bytes of predict(fixed "
@@ -103,7 +103,7 @@ def references(names, meters):
 def schedules(draw, names):
     names = list(names)
     perm = draw(st.permutations(names))
-    k = draw(st.sampled_from([1, 2, 4, 8]))
+    k = draw(st.sampled_from([1, 2, 4, 8, 16]))
     chunks = [perm[i::k] for i in range(k)]
     chunks = [c for c in chunks if c]
     procs = []
